@@ -3,6 +3,7 @@
 (* Model-checking harness for AtomicSave: every configuration              *)
 (*   {destination absent, file, reached through a symlink}                 *)
 (* x {no tensor / tensor 1 backed by the destination}                      *)
+(* x {no tensor / the LAST tensor an ExternalTensor backed by another file}*)
 (* x 1..MaxT tensors x 1..MaxC chunks x serial/parallel writer,            *)
 (* plus the sharded variant (shard count a function of the limit, incl.    *)
 (* one shard = plain name; plain-name file absent/present/backing a tensor;*)
@@ -15,22 +16,26 @@ EXTENDS AtomicSave, Json
 
 CONSTANTS MaxT, MaxC, EmitOn
 
-Mk(nt, nc, dest, backed, par, shard, pre, lim) ==
-  [nt |-> nt, nc |-> nc, dest |-> dest, backed |-> backed, par |-> par, shard |-> shard, pre |-> pre,
-   lim |-> lim, sh |-> ShardAssign(nt, nc, backed, shard, lim)]
+Mk(nt, nc, dest, backed, other, par, shard, pre, lim) ==
+  [nt |-> nt, nc |-> nc, dest |-> dest, backed |-> backed, other |-> other, par |-> par, shard |-> shard,
+   pre |-> pre, lim |-> lim, sh |-> ShardAssign(nt, nc, backed \cup other, shard, lim)]
 
-Single == {c \in {Mk(nt, nc, dest, backed, par, FALSE, {}, 0) :
+(* bystander: none, or the last tensor (so that it comes AFTER a tensor backed by the destination) *)
+Others(nt) == {{}, {nt}}
+AnyOther == {{}} \cup {{t} : t \in 1..MaxT}
+
+Single == {c \in {Mk(nt, nc, dest, backed, other, par, FALSE, {}, 0) :
                    nt \in 1..MaxT, nc \in 1..MaxC, dest \in {"absent", "file", "symlink"},
-                   backed \in {{}, {1}}, par \in BOOLEAN} :
-             WellFormedCfg(c) /\ (c.par => c.nt >= 2)}
+                   backed \in {{}, {1}}, other \in AnyOther, par \in BOOLEAN} :
+             WellFormedCfg(c) /\ c.other \in Others(c.nt) /\ (c.par => c.nt >= 2)}
 
 (* sharded request: limit = 1, 2, .. nt tensors' worth of bytes (so also "everything fits ONE shard,
    which keeps the plain name"), plain-name file absent / present / present and backing tensor 1,
    every set of pre-existing numbered shard files                                               *)
-ShardedBase == {c \in {Mk(nt, nc, dest, backed, FALSE, TRUE, {}, k * nc) :
+ShardedBase == {c \in {Mk(nt, nc, dest, backed, other, FALSE, TRUE, {}, k * nc) :
                         nt \in 1..MaxT, nc \in 1..MaxC, dest \in {"absent", "file"},
-                        backed \in {{}, {1}}, k \in 1..MaxT} :
-                  WellFormedCfg(c) /\ c.lim <= c.nt * c.nc}
+                        backed \in {{}, {1}}, other \in AnyOther, k \in 1..MaxT} :
+                  WellFormedCfg(c) /\ c.other \in Others(c.nt) /\ c.lim <= c.nt * c.nc}
 Sharded == UNION {{[c EXCEPT !.pre = p] : p \in SUBSET (IF Numbered(c) THEN 1..NShardsC(c) ELSE {})} : c \in ShardedBase}
 Configs == Single \cup Sharded
 
